@@ -108,10 +108,10 @@ func uniqStrings(s []string) []string {
 	return o
 }
 
-var vProfileC02 = vProfile{name: "c02", blockLoads: false, queueFull: 120, multiGPU: 15, optVariants: true, lateLoad: 60}
+var vProfileC02 = vProfile{name: "c02", blockLoads: false, queueFull: 120, multiGPU: 15, optVariants: true, lateLoad: 60, pingCancel: 100}
 
 func TestVerifC02(t *testing.T) {
 	vRunSched(t, "C02", vProfileC02, 400, 40000,
-		"history i = PRNG(seed,'C02',i): as C01 but every scripted load terminates and every holder releases (the property's premises); 12% of histories are the queue-full scenario (MAX_LOADED=1, a gated holder, a request that makes the pending loop wait for the unload, then a burst of MAX_QUEUE+2..6 submissions from one goroutine). Oracle: at most one reply per request over the whole history (listeners stay until the end), exactly one for uncancelled requests; after the last release (+ explicit unload of forever-runners) the history must drain: every started mock closed, Scheduler.loaded empty, no outstanding references. 'Never' is decided only at runtime quiescence (3 goroutine-dump samples 50 ms apart without a movable goroutine of the package and without an armed finite keep-alive timer); the wall-clock watchdog yields inconclusive. Non-trivial & distinct as for C01",
+		"history i = PRNG(seed,'C02',i): as C01 but every scripted load terminates and every holder releases (the property's premises); 12% of histories are the queue-full scenario (MAX_LOADED=1, a gated holder, a request that makes the pending loop wait for the unload, then a burst of MAX_QUEUE+2..6 submissions from one goroutine), 10% are the ping-cancel scenario (a model idle under a finite keep-alive, then requests whose client leaves during the scheduler's health check of the loaded runner; no forever keep-alive and no explicit unload, so the history must drain through the timers alone). Oracle: at most one reply per request over the whole history (listeners stay until the end), exactly one for uncancelled requests; after the last release (+ explicit unload of forever-runners) the history must drain: every started mock closed, Scheduler.loaded empty, no outstanding references. 'Never' is decided only at runtime quiescence (3 goroutine-dump samples 50 ms apart without a movable goroutine of the package and without an armed finite keep-alive timer); the wall-clock watchdog yields inconclusive. Non-trivial & distinct as for C01",
 		vCheckC02)
 }
